@@ -140,10 +140,14 @@ class BuildLock:
 
 def regenerate_tables():
     """run the translator; it rewrites Generated/*.lean only when the content differs"""
-    rc, out = _run([sys.executable, os.path.join(VERIF, "harness", "gen_tables.py")], cwd=VERIF)
-    if rc != 0:
-        raise RuntimeError("gen_tables.py failed:\n" + out)
-    return out
+    import glob
+    log = ""
+    for script in sorted(glob.glob(os.path.join(VERIF, "harness", "gen_tables*.py"))):
+        rc, out = _run([sys.executable, script], cwd=VERIF)
+        log += out
+        if rc != 0:
+            raise RuntimeError(os.path.basename(script) + " failed:\n" + out)
+    return log
 
 
 def build(proof_modules: list[str]) -> BuildResult:
